@@ -798,6 +798,68 @@ pub fn view_request(f: &[u8]) -> Option<ReqView> {
     Some(v)
 }
 
+/// `view_request`, but for IPv6 the transport is looked for behind Hop-by-Hop (0), Routing (43),
+/// Fragment (44, offset 0 only) and Destination Options (60) headers — what a responder that skips
+/// extension headers would answer to
+pub fn view_request_ext(f: &[u8]) -> Option<ReqView> {
+    let mut v = view_request(f)?;
+    if let Some(ip) = &mut v.ip {
+        if ip.v == 6 {
+            let mut guard = 0;
+            while [0u8, 43, 44, 60].contains(&ip.proto) && ip.l4.len() >= 8 && guard < 16 {
+                let next = ip.l4[0];
+                let hl = if ip.proto == 44 { 8 } else { (ip.l4[1] as usize + 1) * 8 };
+                if hl > ip.l4.len() {
+                    break;
+                }
+                ip.l4 = ip.l4[hl..].to_vec();
+                ip.proto = next;
+                guard += 1;
+            }
+        }
+    }
+    Some(v)
+}
+
+/// Insert IPv6 extension headers between the fixed header and the transport of a consistent
+/// Ethernet/IPv6 frame. Each entry: (type 0 / 43 / 60 with `units` further 8-byte units and a PadN
+/// / zero body, or 44 = atomic Fragment header), a byte for the header's second octet where that
+/// octet is not a length (Fragment: reserved), units.
+pub fn insert_ext6(f: &[u8], hdrs: &[(u8, u8, u8)]) -> Option<Vec<u8>> {
+    if f.len() < 54 || be16(f, 12) != ET_V6 || f[14] >> 4 != 6 || be16(f, 18) as usize + 54 != f.len() || hdrs.is_empty() {
+        return None;
+    }
+    let upper = f[20];
+    let mut chain = Vec::new();
+    for (i, (t, second, units)) in hdrs.iter().enumerate() {
+        let next = hdrs.get(i + 1).map(|h| h.0).unwrap_or(upper);
+        if *t == 44 {
+            chain.extend_from_slice(&[next, *second, 0, 0, 0x12, 0x34, 0x56, 0x78]);
+        } else {
+            let u = (*units as usize).min(3);
+            let n = 8 + 8 * u;
+            let mut h = vec![0u8; n];
+            h[0] = next;
+            h[1] = u as u8;
+            if *t == 43 {
+                h[2] = *second; // routing type, segments left 0
+            } else {
+                h[2] = 1; // PadN
+                h[3] = (n - 4) as u8;
+            }
+            chain.extend_from_slice(&h);
+        }
+    }
+    let mut out = f[..54].to_vec();
+    out[20] = hdrs[0].0;
+    let pl = (f.len() - 54 + chain.len()).min(65535) as u16;
+    out[18] = (pl >> 8) as u8;
+    out[19] = pl as u8;
+    out.extend_from_slice(&chain);
+    out.extend_from_slice(&f[54..]);
+    Some(out)
+}
+
 // ---------------------------------------------------------------------------------------
 // header variations that do not change who is asked what
 
